@@ -1,22 +1,26 @@
 package main
 
 import (
+	"bufio"
 	"bytes"
+	"crypto/tls"
 	"encoding/binary"
+	"fmt"
 	"hash/adler32"
 	"hash/crc32"
-	"math/bits"
-	"fmt"
 	"io"
+	"math/bits"
+	"net"
 	"strings"
+	"sync"
 
 	"github.com/datastax/go-cassandra-native-protocol/compression/lz4"
 	"github.com/datastax/go-cassandra-native-protocol/compression/snappy"
 	"github.com/datastax/go-cassandra-native-protocol/crc"
-	"github.com/datastax/go-cassandra-native-protocol/segment"
 	"github.com/datastax/go-cassandra-native-protocol/frame"
 	"github.com/datastax/go-cassandra-native-protocol/message"
 	"github.com/datastax/go-cassandra-native-protocol/primitive"
+	"github.com/datastax/go-cassandra-native-protocol/segment"
 	"verif/internal/gen"
 	"verif/internal/lp"
 	"verif/internal/show"
@@ -136,7 +140,11 @@ func runC06(res *lp.Result) {
 		"Thorough: every length 0..131071 once on the implementation. Non-trivial = non-empty payload; distinct by (length, class, flags)."
 	rng := lp.NewRng(*seed)
 	var lines, expect, descr []string
-	ask := func(l, want, d string) { lines = append(lines, l); expect = append(expect, want); descr = append(descr, d) }
+	ask := func(l, want, d string) {
+		lines = append(lines, l)
+		expect = append(expect, want)
+		descr = append(descr, d)
+	}
 	codecs := map[string]segment.Codec{"none": segment.NewCodec(), "lz4": segment.NewCodecWithCompression(lz4.Compressor{})}
 	check := func(cname string, sc bool, p []byte, askModel bool) {
 		id := fmt.Sprintf("comp=%s selfContained=%v len=%d", cname, sc, len(p))
@@ -337,6 +345,45 @@ func trunc(s string) string {
 	return s
 }
 
+type srcKind struct {
+	name string
+	r    io.Reader
+	done func()
+}
+
+var c07TLS struct {
+	once     sync.Once
+	srv, cli *tls.Config
+}
+
+// corruptSources: the same bytes behind several kinds of io.Reader
+func corruptSources(in []byte, rng *lp.Rng) []srcKind {
+	nop := func() {}
+	ks := []srcKind{
+		{"a *bytes.Buffer", bytes.NewBuffer(append([]byte{}, in...)), nop},
+		{"a source delivering a few bytes per Read", &chunkedReader{r: bytes.NewReader(in), n: 1 + rng.Intn(7)}, nop},
+		{"a bufio.Reader", bufio.NewReaderSize(bytes.NewReader(in), 16), nop},
+	}
+	pipe := func(wrap func(a, b net.Conn) (io.Reader, io.Writer, func())) srcKind {
+		a, b := net.Pipe()
+		r, w, closeAll := wrap(a, b)
+		go func() { w.Write(in); closeAll() }()
+		return srcKind{"", r, func() { a.Close(); b.Close() }}
+	}
+	k := pipe(func(a, b net.Conn) (io.Reader, io.Writer, func()) { return a, b, func() { b.Close() } })
+	k.name = "a network connection"
+	ks = append(ks, k)
+	c07TLS.once.Do(func() { c07TLS.srv, c07TLS.cli = selfSignedTLS() })
+	k = pipe(func(a, b net.Conn) (io.Reader, io.Writer, func()) {
+		cl := tls.Client(a, c07TLS.cli)
+		sv := tls.Server(b, c07TLS.srv)
+		return cl, sv, func() { sv.Close() }
+	})
+	k.name = "a TLS connection"
+	ks = append(ks, k)
+	return ks
+}
+
 func runC07(res *lp.Result) {
 	res.Rule = "fault enumeration on the real segment decoder: every flip pattern of weight 1..3 over the 48 (no compressor) or 64 (LZ4 " +
 		"format) header+CRC-24 bits exhaustively and sampled patterns of weight 4..7, for several header values; for payloads of several " +
@@ -372,6 +419,19 @@ func runC07(res *lp.Result) {
 		if err == nil {
 			res.Add(lp.Finding{Kind: "violation", What: "corrupted segment accepted (" + what + ")", Input: "seg dec " + cname + " " + hx(in),
 				Impl: fmt.Sprintf("payload %d bytes", len(s.Payload.UncompressedData))})
+		}
+		// what is rejected from a byte slice is rejected from every other kind of source: a *bytes.Buffer, a source that delivers a
+		// few bytes per Read, a network connection, a TLS connection (the checks are the decoder's, not the transport's)
+		if tries%7 == 0 {
+			for _, sk := range corruptSources(in, rng) {
+				s2, err2 := codecs[cname].DecodeSegment(sk.r)
+				sk.done()
+				res.Count("corrupted-from/" + sk.name)
+				if err2 == nil {
+					res.Add(lp.Finding{Kind: "violation", What: "corrupted segment accepted when it is read from " + sk.name + " (" + what + ")", Input: "seg dec " + cname + " " + hx(in),
+						Impl: fmt.Sprintf("payload %d bytes", len(s2.Payload.UncompressedData))})
+				}
+			}
 		}
 	}
 	flip := func(b []byte, bit int) { b[bit/8] ^= 1 << uint(bit%8) }
@@ -707,8 +767,14 @@ func runC08(res *lp.Result) {
 	srcKind := 0
 	src := func(in []byte) io.Reader {
 		srcKind++
-		res.Count(fmt.Sprintf("source-kind/%d", srcKind%4))
-		switch srcKind % 4 {
+		res.Count(fmt.Sprintf("source-kind/%d", srcKind%6))
+		switch srcKind % 6 {
+		case 4:
+			// a LimitedReader in front of a source that delivers a few bytes per Read and has more to give (a frame body on a connection)
+			more := append(append([]byte{}, in...), "what follows is not part of the input"...)
+			return io.LimitReader(&chunkedReader{r: bytes.NewReader(more), n: 1 + rng.Intn(700)}, int64(len(in)))
+		case 5:
+			return bufio.NewReaderSize(bytes.NewReader(in), 16+rng.Intn(4096))
 		case 0:
 			return bytes.NewBuffer(append([]byte{}, in...))
 		case 1:
@@ -721,7 +787,11 @@ func runC08(res *lp.Result) {
 	}
 	type rw = func(io.Reader, io.Writer) error
 	via := func(f rw) func(in []byte) ([]byte, error) {
-		return func(in []byte) ([]byte, error) { var o bytes.Buffer; e := f(src(in), &o); return append([]byte{}, o.Bytes()...), e }
+		return func(in []byte) ([]byte, error) {
+			var o bytes.Buffer
+			e := f(src(in), &o)
+			return append([]byte{}, o.Bytes()...), e
+		}
 	}
 	comps := []comp{
 		{"lz4", via(l.CompressWithLength), via(l.DecompressWithLength), via(l.Compress), via(l.Decompress)},
@@ -731,6 +801,15 @@ func runC08(res *lp.Result) {
 	for _, sz := range sizes {
 		classes := map[string][]byte{"zero": make([]byte, sz), "ones": bytes.Repeat([]byte{0xff}, sz), "repeat": bytes.Repeat([]byte("abcdefgh"), sz/8+1)[:sz],
 			"text": text(sz), "random": rng.Bytes(sz)}
+		if sz >= 96 {
+			// noise that ends in a short run (the first match comes after a long literal), and a run that ends in noise
+			k := 16 + rng.Intn(64)
+			a := rng.Bytes(sz)
+			copy(a[sz-k:], make([]byte, k))
+			b := rng.Bytes(sz)
+			copy(b[:k], make([]byte, k))
+			classes["noise-then-run"], classes["run-then-noise"] = a, b
+		}
 		for cl, in := range classes {
 			if sz <= 20000 && (sz <= 4096 || len(modelInputs) < 400) {
 				modelInputs = append(modelInputs, in)
